@@ -3,7 +3,9 @@ import SafeNet.Model.Upgrade
 /-!
 Line protocol of `drv_upgrade` (inputs only):
   `cfg  k=v k=v …`     → install and upgrade argument lists and settings of the model
-  `accept k=v k=v …`   → verdict of the clap-subset parser on both argument lists
+  `accept k=v k=v …`   → verdict of clap's tokeniser + the clap-subset parser on the STRINGS of both argument lists
+  `lexprobe k=v …`     → the same, coarse (`ok`/`rej`), plus what the install strings were tokenised to:
+                          number of peers / contact URLs, the owner (values that are not lex-safe)
 Keys are dotted source expressions of `add_node` (`options.home_network`, `metrics_free_port`, …) and
 `@provided` / `@prev` (environment given to `antctl upgrade` / registry-wide environment before the add),
 `@listen` (port reported by the started node before the upgrade).
@@ -13,8 +15,8 @@ Values: `T` `F` booleans, `-` none, `s:<word>` some, `l:<w>,<w>` list (`l:` empt
 namespace SafeNet.Driver.Upgrade
 open SafeNet.ArgTable SafeNet.Upgrade
 
-/-- words are written with ` ` as `%20` and `%` as `%25` -/
-def unesc (s : String) : String := (s.replace "%20" " ").replace "%25" "%"
+/-- words are written with ` ` as `%20` and `%` as `%25`; a `,` inside a list element as `%2C` -/
+def unesc (s : String) : String := ((s.replace "%20" " ").replace "%2C" ",").replace "%25" "%"
 def esc (s : String) : String := (s.replace "%" "%25").replace " " "%20"
 
 /-- `@case=l:Ü:ü,Ç:ç`: the non-ASCII capitals occurring in the line with their lower-case forms
@@ -84,11 +86,31 @@ def showArgs (items : List Item) : String := " ".intercalate ((argv items).map e
 def errClass : PErr → String
   | .unknown _ => "unknown" | .arity _ => "unknown" | .duplicate _ => "duplicate" | .positional => "unknown"
   | .unknownSubcommand _ => "unknown" | .missing _ => "missing" | .conflict _ _ => "conflict" | .requiredIf _ => "missing"
+  | .untokenisable => "unknown"
 
+/-- antnode's verdict on the strings of an argument list (tokenise as clap does, then parse) -/
 def verdict (items : List Item) : String :=
-  match parseArgs items with
+  match parseArgStrings (argv items) with
   | .ok _ => "ok"
   | .error e => "err:" ++ errClass e
+
+def coarse (items : List Item) : String :=
+  match parseArgStrings (argv items) with
+  | .ok _ => "ok"
+  | .error _ => "rej"
+
+def countOf : PVal → String
+  | .absent => "0"
+  | .many l => toString l.length
+  | _ => "1"
+
+/-- what the strings of an argument list were tokenised and parsed to (the part the probes vary) -/
+def probeDetails (items : List Item) : String :=
+  match parseArgStrings (argv items) with
+  | .ok p =>
+    "peers=" ++ countOf (p.top "addrs") ++ " urls=" ++ countOf (p.top "network_contacts_url") ++ " owner=" ++
+      (match p.top "owner" with | .one s => esc s | _ => "-")
+  | .error _ => "peers=- urls=- owner=-"
 
 /-- `@fail=s:install:K` (the K-th install is refused; the loop goes on) / `@fail=s:port:K` (the port lookup
 for the K-th service fails; `?` returns at once) -/
@@ -137,6 +159,12 @@ def step (_ : Unit) (ws : List String) : Unit × String :=
     | some raw =>
       let (σ, data) := setup raw 1
       ((), "I:" ++ verdict (buildInstall σ) ++ " U:" ++ verdict (buildUpgrade data))
+  | "lexprobe" :: rest =>
+    match rest.mapM splitKV with
+    | none => ((), "bad-op")
+    | some raw =>
+      let (σ, data) := setup raw 1
+      ((), "I:" ++ coarse (buildInstall σ) ++ " U:" ++ coarse (buildUpgrade data) ++ " " ++ probeDetails (buildInstall σ))
   | _ => ((), "bad-op")
 
 /-- Model search (only used when a proof obligation broke): option records on which the regenerated
